@@ -2977,7 +2977,19 @@ static void struct_members(Token **rest, Token *tok, Type *ty) {
         if (!is_integer(mem->ty))
           error_tok(mem->name ? mem->name : tok, "bit-field has invalid type");
         mem->is_bitfield = true;
-        mem->bit_width = const_expr(&tok, tok);
+
+        // C11 6.7.2.1p4: the width is nonnegative, does not exceed the
+        // width of the declared type, and is zero only for an unnamed
+        // member.
+        Token *start = tok;
+        int64_t width = const_expr(&tok, tok);
+        if (width < 0)
+          error_tok(start, "negative width in bit-field");
+        if (width > mem->ty->size * 8)
+          error_tok(start, "width of bit-field exceeds its type");
+        if (width == 0 && mem->name)
+          error_tok(mem->name, "zero width for named bit-field");
+        mem->bit_width = width;
       }
 
       cur = cur->next = mem;
